@@ -16,7 +16,7 @@ from harness import common
 
 PROP = 'C11'
 THEOREMS = ['C11_minimal', 'C11_cost', 'C11_kept_lcs', 'C11_fewest_marks', 'C11_lcs_upper', 'C11_lcs_witness',
-            'C11_lcs_fast', 'C11_holds', 'C11_holds_sound', 'C11_corr_holds']
+            'C11_lcs_fast', 'C11_holds', 'C11_holds_sound', 'C11_corr_holds', 'C11_equal_strings']
 HEADER_SPEC = ('From Coq Require Import ZArith List Bool.\nRequire Import GT.PyBase GT.Data GT.ScriptSpec GT.StrSpec.\n'
                'Import ListNotations.\nOpen Scope Z_scope.\n')
 HEADER_MODEL = HEADER_SPEC + 'Require Import GT.ScriptModel.\n'
@@ -25,6 +25,7 @@ MODEL_TARGETS = ['theories/StrSpec.vo', 'theories/ScriptModel.vo']
 PROOF_TARGETS = ['props/PropC11.vo']
 CORPUS = os.path.join(common.VERIF, 'corpus', 'C11.jsonl')
 CHUNK = 400
+BATCH = 4800        # cases per common.coq_eval_cases call: case indices stay small unary nats inside Coq
 
 
 # ------------------------------------------------------------------ implementation side (worker)
@@ -188,6 +189,18 @@ def case_term(s, t, out):
 
 # ------------------------------------------------------------------ check
 
+def eval_batched(wd, name, header, terms, evals, chunk):
+    """common.coq_eval_cases in batches of BATCH cases (indices are re-based in Python)."""
+    results = [[] for _ in evals]
+    for b in range(0, len(terms), BATCH):
+        bad, err = common.coq_eval_cases(wd, f'{name}_{b // BATCH}', header, terms[b:b + BATCH], evals, chunk=chunk)
+        if err:
+            return results, err
+        for k in range(len(evals)):
+            results[k] += [b + i for i in bad[k]]
+    return results, None
+
+
 def run_cases(run, wd, name, cases, st, chunk=CHUNK):
     """Drive the implementation on the cases, evaluate holds (and corr when the model builds) in Coq.
     Returns (kept cases [(s, t, family, impl output)], failing holds indices outside the known-finding class,
@@ -208,7 +221,7 @@ def run_cases(run, wd, name, cases, st, chunk=CHUNK):
     if st['models_ok']:
         evals.append('bad_cases (corr_with str_script)')
         header = HEADER_MODEL
-    bad, err = common.coq_eval_cases(wd, name, header, terms, evals, chunk=chunk)
+    bad, err = eval_batched(wd, name, header, terms, evals, chunk)
     if err:
         run.violation({'kind': 'case-evaluation-failed', 'error': err}, no_input=True)
         return keep, [], [], []
@@ -269,7 +282,7 @@ def check(tier, seed):
         common.proof_evidence(run, wd, PROP, st, THEOREMS)
         cases = load_corpus() + gen_cases(tier, rng)
         keep, bad_holds, in_class, bad_corr = run_cases(run, wd, 'cases', cases, st,
-                                                        chunk=CHUNK if tier == 'quick' else 2000)
+                                                        chunk=CHUNK if tier == 'quick' else 300)
         bad_corr = report_holds(run, keep, bad_holds, in_class, bad_corr)
         run.cov['traces_validated_against_impl'] = len(keep) if st['models_ok'] else 0
         fam = {}
@@ -282,7 +295,7 @@ def check(tier, seed):
                 more = [sample_pair(r2, 60) for _ in range(6000)]
                 abc = all_strings('abc', 6)
                 more += [(r2.choice(abc), r2.choice(abc), 'sampled-abc') for _ in range(6000)]
-                k2, bh, ic2, bc = run_cases(run, wd, f'search{s2}', more, st, chunk=1000)
+                k2, bh, ic2, bc = run_cases(run, wd, f'search{s2}', more, st, chunk=300)
                 bc = report_holds(run, k2, bh, ic2, bc)
                 if bc and not bad_corr:
                     keep, bad_corr = k2, bc
